@@ -144,6 +144,9 @@ func (c11) Case(c *core.Ctx) {
 			v = map[string]interface{}{"n": float64(c.Index)}
 		case 1:
 			v = float64(c.Index) + 0.5
+		case 2:
+			// Go-typed content must arrive unchanged (types included)
+			v = map[string]interface{}{"i": c.Index, "l": []interface{}{1, "x", int64(7)}, "m": map[string]interface{}{"u": uint64(3)}}
 		}
 		err := mxj.Map(act).SetValueForPath(v, path)
 		p, _, pim, listOnWay, scalarParent := nav(exp)
